@@ -1,6 +1,7 @@
 use std::{
     collections::{HashMap, HashSet},
     fmt::{self, Debug, Display},
+    str::FromStr,
     sync::Arc,
 };
 
@@ -70,9 +71,35 @@ impl AsRef<str> for Name {
     }
 }
 
+/// The filter expression of a `bgpfu-fltr:` annotation. A statement whose expression does not
+/// parse is still a managed candidate: it can never be evaluated (so it is never updated), but
+/// it must not be mistaken for an unmanaged policy either (which would be deleted).
+#[derive(Debug, Clone, PartialEq, Eq)]
+pub(crate) enum FilterExpr {
+    Parsed(MpFilterExpr),
+    Malformed(String),
+}
+
+impl FromStr for FilterExpr {
+    type Err = <MpFilterExpr as FromStr>::Err;
+
+    fn from_str(s: &str) -> Result<Self, Self::Err> {
+        s.parse().map(Self::Parsed)
+    }
+}
+
+impl Display for FilterExpr {
+    fn fmt(&self, f: &mut fmt::Formatter<'_>) -> fmt::Result {
+        match self {
+            Self::Parsed(expr) => Display::fmt(expr, f),
+            Self::Malformed(raw) => Display::fmt(raw, f),
+        }
+    }
+}
+
 #[derive(PartialEq, Eq)]
 pub(crate) struct Candidate {
-    filter_expr: MpFilterExpr,
+    filter_expr: FilterExpr,
 }
 
 impl Debug for Candidate {
@@ -91,7 +118,7 @@ pub(crate) struct Installed {
 
 #[derive(Debug)]
 pub(crate) struct Evaluated {
-    filter_expr: MpFilterExpr,
+    filter_expr: FilterExpr,
     ranges: Option<(Ranges<Ipv4>, Ranges<Ipv6>)>,
 }
 
@@ -107,7 +134,7 @@ pub(crate) enum Update<'a> {
     },
     Update {
         name: Name,
-        filter_expr: &'a MpFilterExpr,
+        filter_expr: &'a FilterExpr,
         ipv4: Differences<'a, Ipv4>,
         ipv6: Differences<'a, Ipv6>,
     },
